@@ -385,7 +385,44 @@ func c06rules(c *Ctx, w *World, pfx string) {
 				countName = outer.Params[1].Name()
 			}
 			want := sliceName + "[" + Mod + ".Bucket(p0,p1," + countName + ")]"
-			if got != want {
+			// the same fact by identity: the element of the returned slice at Bucket(name, key, count | len(slice))
+			structural := func() bool {
+				var made ssa.Value
+				eachInstr(outer, func(in ssa.Instruction) {
+					if rt, isR := in.(*ssa.Return); isR && len(rt.Results) == 1 {
+						made = ptrOrigin(rt.Results[0])
+					}
+				})
+				if _, isMk := made.(*ssa.MakeSlice); !isMk || len(outer.Params) != 2 {
+					return false
+				}
+				ld, ok := ptrOrigin(mmSplit).(*ssa.UnOp)
+				if !ok || ld.Op != token.MUL {
+					return false
+				}
+				ia, ok := ld.X.(*ssa.IndexAddr)
+				if !ok || ptrOrigin(ia.X) != made {
+					return false
+				}
+				bc, ok := ptrOrigin(ia.Index).(*ssa.Call)
+				if !ok || !isCall(bc, "gostatsd.Bucket") || len(bc.Call.Args) != 3 {
+					return false
+				}
+				a := bc.Call.Args
+				if paramIndex(cl, a[0]) != 0 || paramIndex(cl, a[1]) != 1 {
+					return false
+				}
+				n := ptrOrigin(a[2])
+				if n == ssa.Value(outer.Params[1]) {
+					return true
+				}
+				if lc, isC := n.(*ssa.Call); isC && isCall(lc, "builtin len") && ptrOrigin(lc.Call.Args[0]) == made {
+					// len(maps) is count: maps = make([]*MetricMap, count) is checked below
+					return true
+				}
+				return false
+			}
+			if got != want && !structural() {
 				return false, "split map is " + got + "; shard count and slice must be Split's count and maps, selected by Bucket(metricName, tagsKey, count)"
 			}
 			return true, "maps[Bucket(metricName, tagsKey, count)]"
